@@ -197,7 +197,24 @@ struct Session {
     rx: Receiver<Value>,
 }
 
+/// stack of a session thread: 8 MB (the usual main-thread stack of a host application) unless the request says otherwise
+fn new_session_with(stack_mb: usize) -> Session {
+    let (tx_req, rx_req) = channel::<Value>();
+    let (tx_rep, rx_rep) = channel::<Value>();
+    std::thread::Builder::new()
+        .name("mathcat-session".into())
+        .stack_size(stack_mb << 20)
+        .spawn(move || session_main(rx_req, tx_rep))
+        .expect("spawn");
+    Session { tx: tx_req, rx: rx_rep }
+}
+
 fn new_session() -> Session {
+    return new_session_with(8);
+}
+
+#[allow(dead_code)]
+fn new_session_old() -> Session {
     let (tx_req, rx_req) = channel::<Value>();
     let (tx_rep, rx_rep) = channel::<Value>();
     std::thread::Builder::new()
@@ -249,7 +266,8 @@ fn main() {
         let op = s(&req, "op");
         let reply = if op == "session" {
             // drop the old thread (it exits when its channel closes) and start a fresh one
-            sessions.insert(sid.clone(), new_session());
+            let mb = req.get("stack_mb").and_then(|v| v.as_u64()).unwrap_or(8) as usize;
+            sessions.insert(sid.clone(), new_session_with(mb));
             json!({"r":"ok","v":Value::Null})
         } else {
             if !sessions.contains_key(&sid) {
